@@ -90,7 +90,10 @@ def builds(j, version="2.1"):
            ("parse(dict)", lambda: stix2.parse(copy.deepcopy(j), allow_custom=False)),
            ("parse(text)", lambda: stix2.parse(json.dumps(j), allow_custom=False)),
            ("parse(text, sorted keys)", lambda: stix2.parse(json.dumps(j, sort_keys=not order_sensitive(j)), allow_custom=False)),
-           ("parse_observable", lambda: stix2.parse_observable(copy.deepcopy(j), version="2.1"))]
+           ("parse_observable", lambda: stix2.parse_observable(copy.deepcopy(j), version="2.1")),
+           # "no explicit id" spelled as an id that is null / None (how an absent property is written everywhere else in the library)
+           ("constructor(id=None)", lambda: cls(id=None, **copy.deepcopy(kw))),
+           ("parse(text with id null)", lambda: stix2.parse(json.dumps(dict(j, id=None)), allow_custom=False))]
     g = gen.Gen("2.1")
     od = g.minimal("objects:observed-data")
     od.pop("object_refs", None)
